@@ -36,7 +36,7 @@ RULE = (
     "refused promotion and >= 1 rejected stale write; processes: >= 1 refused promotion while another process was "
     "inside its round; distinct by hash of the case"
 )
-RULE += " Later additions (DESIGN.md 9): " + 'handle sequences may end with a crash inside a write followed by writes from every other handle; process bursts may contain cancel-jobs and several commands from one host, and the role must be cleared only by the process that took it.'
+RULE += " Later additions (DESIGN.md 9): " + 'handle sequences may end with a crash inside a write followed by writes from every other handle; process bursts may contain cancel-jobs and several commands from one host, and the role must be cleared only by the process that took it; in 3/5 of the process cases resubmit-jobs is issued at the instant the completing process has set is_complete and still holds the role (that process held back 30-200 steps): the refused command must not change the cluster state.'
 ASSUMPTIONS = C.WORLD_ASSUMPTIONS + [
     "handles sub-case: operations run one after another (the cluster lock serialises them anyway); hosts are distinct "
     "per handle (JADE identifies a submitter by hostname)",
@@ -72,6 +72,7 @@ def process_cases(draw):
         # the host each command of the burst is issued from: 0 = the login host (where submit-jobs ran), 1-3 = other hosts;
         # several commands may come from the same host (JADE identifies the submitter by host name)
         "burst_hosts": draw(st.lists(st.integers(0, 3), min_size=4, max_size=4)),
+        "resubmit_at_completion": draw(st.sampled_from([None, None, 30, 80, 200])),
         "lock_mode": draw(st.sampled_from(["classic", "selfheal"])),
     }
 
@@ -400,8 +401,29 @@ def run_processes(case, res):
             st_["fired"] = len(ww.log)
 
         w.user_events.append(("burst", pred, fire, True))
+        if case.get("resubmit_at_completion"):
+            # resubmit-jobs issued at the instant the completing process has set is_complete and still holds the role,
+            # while that process is slow (held back for a generated number of steps): the command is refused promotion
+            # for as long as it likes to retry and must leave the state alone
+            def at_completion(ww):
+                cc = sim.cluster_config()
+                return bool(cc and cc.get("is_complete") and cc.get("submitter"))
+
+            def resubmit(ww):
+                for t in ww.threads:
+                    if t.state != "done" and not t.dead:
+                        t.paused_until = ww.steps + case["resubmit_at_completion"]
+                        # the flag is written inside the cluster lock: the holder is slow right after it leaves that section
+                        t.pause_next_release = case["resubmit_at_completion"]
+                sim.user_cmd(["resubmit-jobs", sim.out, "--successful"], host="userhost9", name="resubmit")
+                st_["resubmit"] = len(ww.log)
+                res["classes"].append("resubmit_while_completing_process_holds_role")
+
+            w.cond_events.append(("resubmit", at_completion, resubmit))
         sim.submit()
         outcome = sim.drive()
+        if "resubmit" in st_ and outcome == "complete":
+            outcome = sim.drive()
         if outcome == "budget":
             res["inconclusive"] = "step-budget"
         # role never passes from host to host without being cleared
@@ -422,6 +444,12 @@ def run_processes(case, res):
                     v.append(C.viol("C10:role-released-by-a-process-that-does-not-hold-it",
                                     f"the role taken by {holder} (host {prev['submitter']}) was cleared by {s['by']}"))
                 holder = None
+            if prev is not None and prev["submitter"] and holder is not None and s["by"] != holder and cc["version"] != prev["version"] \
+                    and s["by"].split("#")[0].endswith("resubmit"):
+                v.append(C.viol("C10:state-written-by-a-process-refused-the-role",
+                                f"while {holder} (host {prev['submitter']}) holds the role, {s['by']} changed the cluster state "
+                                f"(config version {prev['version']} -> {cc['version']}, is_complete {prev.get('is_complete')} -> "
+                                f"{cc.get('is_complete')})"))
             if prev is not None and prev["submitter"] and cc["submitter"] and prev["submitter"] != cc["submitter"]:
                 v.append(C.viol("C10:role-taken-over-while-held", f"submitter changed from {prev['submitter']} to {cc['submitter']} without "
                                 f"being cleared (lock release by {s['by']})"))
@@ -442,7 +470,13 @@ def run_processes(case, res):
             elif r["k"] == "proc_end" and r.get("kind") == "try-submit-jobs" and inside is not None and inside != r.get("name") \
                     and r.get("exit") == 0 and not r.get("exc"):
                 refused_during_round += 1
-        for j, b in sorted(C.placements(sim).items()):
+        placed = {}
+        for r in w.events("sbatch"):
+            if "resubmit" in st_ and r["i"] > st_["resubmit"]:
+                continue  # a resubmission that was accepted (the holder had finished) legitimately hands jobs to the HPC again
+            for j in r["jobs"]:
+                placed.setdefault(j, []).append(r["batch"])
+        for j, b in sorted(placed.items()):
             if len(b) > 1:
                 v.append(C.viol("C10:job-in-two-batches", f"job {j} in batches {b}"))
         res["counters"]["refused_while_other_in_round"] = refused_during_round
